@@ -8,9 +8,12 @@
 (* handlers do to the real keeper against these compositions.              *)
 (*                                                                         *)
 (*   Mn    the PoC miner is started (pocMiner.Started())                   *)
+(*   Lk    the wallet is locked (pocWallet.IsLocked()); a node starts with *)
+(*         a locked wallet                                                 *)
 (*                                                                         *)
 (* What the handlers do, in their order:                                   *)
-(*   Plot*   start the keeper if it is not started, then the action        *)
+(*   Plot*   start the keeper if it is not started (the keeper refuses on  *)
+(*           a locked wallet, which the handler ignores), then the action  *)
 (*   Mine*   start the miner if it is not started, then the action (the    *)
 (*           keeper is not started: a registered space asked to mine is    *)
 (*           plotted only once some Plot call has started the keeper)      *)
@@ -18,15 +21,22 @@
 (*           every space                                                   *)
 (*   StopCapacitySpace   Stop on the space; if then no space is in the     *)
 (*           mining state, stop the miner                                  *)
+(*   LockWallet          refused while the miner is started (the miner     *)
+(*           signs with the wallet's keys); a no-op on a locked wallet     *)
+(*   UnlockWallet        success on an unlocked wallet whatever the        *)
+(*           passphrase; otherwise the wallet decides                      *)
 (* A bulk handler answers an internal error if any space refused.          *)
 (* Remove and Delete are not reachable through these handlers.             *)
 (***************************************************************************)
 EXTENDS Keeper
 
-VARIABLE Mn
-avars == <<K, Mn>>
+VARIABLES Mn, Lk
+avars == <<K, Mn, Lk>>
 
-StartIfNot(k) == IF k.run THEN k ELSE StartK(k)
+\* the keeper refuses to start on a locked wallet (capacity.go OnStart); the Plot handlers do not look at its answer: on a
+\* locked wallet they queue the requests, answer success, and nothing is plotted until a later Plot call finds the
+\* wallet unlocked
+StartIfNot(k) == IF k.run \/ Lk THEN k ELSE StartK(k)
 AllOk(rs) == \A i \in DOMAIN rs : rs[i][2] = "ok"
 OneRes(k, w, a) == IF Known(k, w) THEN Res(k, w, a) ELSE "notfound"
 BulkAnswer(k, a) == IF AllOk(BulkRes(k, States, a)) THEN "ok" ELSE "internal"
@@ -65,14 +75,20 @@ CanCall(call, k, w) == /\ call \in {"PlotAll", "MineAll"} => Len(k.chan) + Cardi
 
 TwoParts == \A call \in Calls, w \in Spaces : H(call, K, Mn, w).k = ActPart(call, Pre(call, K), w).k /\ H(call, K, Mn, w).res = ActPart(call, Pre(call, K), w).res
 
-AInit == Init /\ Mn = FALSE
+\* the wallet handlers: the lock after the call and the answer
+HLock(m, l) == IF l THEN [l |-> TRUE, res |-> "ok"] ELSE IF m THEN [l |-> FALSE, res |-> "mining"] ELSE [l |-> TRUE, res |-> "ok"]
+HUnlock(l, good) == IF ~l THEN [l |-> FALSE, res |-> "ok"] ELSE IF good THEN [l |-> FALSE, res |-> "ok"] ELSE [l |-> TRUE, res |-> "walleterr"]
+
+AInit == Init /\ Mn = FALSE /\ Lk = TRUE
 Plotter == \/ CanRecv(K) /\ K' = Recv(K)
            \/ \E w \in Spaces, m \in BOOLEAN : CanPop(K, w, m) /\ K' = Pop(K, w, m)
            \/ CanStep1(K) /\ K' = Step1(K)
            \/ \E o \in {"complete", "aborted"} : CanPlotEnd(K) /\ K' = PlotEnd(K, o)
            \/ CanStep3(K) /\ K' = Step3(K)
-ANext == \/ \E call \in Calls, w \in Spaces : CanCall(call, K, w) /\ K' = H(call, K, Mn, w).k /\ Mn' = H(call, K, Mn, w).m
-         \/ Plotter /\ UNCHANGED Mn
+ANext == \/ \E call \in Calls, w \in Spaces : CanCall(call, K, w) /\ K' = H(call, K, Mn, w).k /\ Mn' = H(call, K, Mn, w).m /\ UNCHANGED Lk
+         \/ Lk' = HLock(Mn, Lk).l /\ UNCHANGED <<K, Mn>>
+         \/ \E good \in BOOLEAN : Lk' = HUnlock(Lk, good).l /\ UNCHANGED <<K, Mn>>
+         \/ Plotter /\ UNCHANGED <<Mn, Lk>>
 ASpec == AInit /\ [][ANext]_avars
 
 (* ------------------------------ properties ------------------------------ *)
@@ -88,6 +104,14 @@ MineStartsMiner == [][\A w \in Spaces : (K' = HMineOne(K, Mn, w).k /\ Mn' = HMin
 \* StopCapacitySpace(w) stops the miner when no space is mining at that moment although a Mine request of another
 \* space is still standing; that space later reaches the mining state with the miner stopped.
 MiningNeedsMiner == AnyMining(K) => Mn
+\* the wallet is not locked under a started miner: once unlocked it stays unlocked for as long as the miner runs
+LockRefusedWhileMining == [][Mn /\ ~Lk /\ Mn' => ~Lk']_avars
+\* OBSERVATION (refuted, ApiControlObs2.cfg): "the miner runs only with an unlocked wallet".  The Mine handlers start the
+\* miner without looking at the wallet: on a node restarted with its configuration in place the wallet is locked until
+\* UnlockWallet, and a block found meanwhile cannot be signed.
+MinerNeedsUnlocked == Mn => ~Lk
+\* the keeper is started only on an unlocked wallet (it may be locked afterwards, while the miner is not started)
+KeeperStartsUnlocked == [][~K.run /\ K'.run => ~Lk]_avars
 \* what does hold: a mining space without a started miner was standing when a StopCapacitySpace stopped the miner
 MinerOffOnlyByStop == [][Mn /\ ~Mn' => ~AnyMining(K')]_avars
 =============================================================================
